@@ -43,6 +43,9 @@ pub struct Scenario {
 	/// value-log scenario: tables pointing into several vlog files, a compaction thread and a
 	/// flush thread (no committers)
 	pub vlog: bool,
+	/// value-log variant: the existing tables hold only small inline values (no table points into
+	/// the value log yet); the pending memtable holds the large values
+	pub vlog_small_tables: bool,
 	/// all committers run the same program on private keys: threads that have not run yet are
 	/// interchangeable, so only the lowest-numbered of them is ever switched to
 	pub symmetric: bool,
@@ -72,6 +75,7 @@ pub fn scenarios(property: &str, tier: Tier) -> Vec<Scenario> {
 		reader: false,
 		stall_low: false,
 		vlog: false,
+		vlog_small_tables: false,
 		symmetric: false,
 		deviation_bounded: false,
 		room: 1,
@@ -205,6 +209,16 @@ pub fn scenarios(property: &str, tier: Tier) -> Vec<Scenario> {
 			vlog: true,
 			..base.clone()
 		},
+		Scenario {
+			// the compaction's clean-up runs after the flush has written its value-log files but
+			// before the table that points into them is installed
+			name: "c11-compaction-cleanup-during-flush",
+			property: "C11",
+			bounds: (2, 3),
+			vlog: true,
+			vlog_small_tables: true,
+			..base.clone()
+		},
 	];
 	let _ = tier;
 	all.into_iter().filter(|s| s.property == property).collect()
@@ -275,13 +289,24 @@ fn setup(sc: &Scenario) -> Result<Setup, String> {
 		let opt = OptSet::base("sched-vlog8-64-cache0").levels(2).with_vlog(8, 64).cache(0);
 		let mut w = World::new(opt, &[])?;
 		let put = |w: &mut World, k: &str| -> Result<(), String> { w.commit(&[crate::model::Write::set(k.as_bytes(), &vlog_value(k))], surrealkv::Durability::Eventual)?.map_err(|e| e) };
-		put(&mut w, "m1")?;
-		put(&mut w, "m2")?;
-		w.physical(crate::world::Phys::FlushAll)?;
-		put(&mut w, "n1")?;
-		w.physical(crate::world::Phys::FlushAll)?;
-		put(&mut w, "z9")?;
-		w.physical(crate::world::Phys::Rotate)?;
+		if sc.vlog_small_tables {
+			for k in ["s1", "s2"] {
+				w.commit(&[crate::model::Write::set(k.as_bytes(), b"tiny")], surrealkv::Durability::Eventual)?.map_err(|e| e)?;
+				w.physical(crate::world::Phys::FlushAll)?;
+			}
+			for k in VLOG_KEYS {
+				put(&mut w, k)?;
+			}
+			w.physical(crate::world::Phys::Rotate)?;
+		} else {
+			put(&mut w, "m1")?;
+			put(&mut w, "m2")?;
+			w.physical(crate::world::Phys::FlushAll)?;
+			put(&mut w, "n1")?;
+			w.physical(crate::world::Phys::FlushAll)?;
+			put(&mut w, "z9")?;
+			w.physical(crate::world::Phys::Rotate)?;
+		}
 		let tree = w.tree().clone();
 		return Ok(Setup {
 			world: w,
